@@ -228,6 +228,23 @@ def _free_block(bp, cs, design, height=25.0, xs="A"):
     return b
 
 
+def _add_group(block):
+    """A nested composite grouping two leaf Components, next to the block's plain components."""
+    from armi.reactor import grids
+    from armi.reactor.components import Circle
+
+    from mcverif.checks.c01_generic import Group
+
+    g = Group("pin group")
+    g.setType("wire")
+    g.add(Circle("wire", "HT9", 25.0, 450.0, id=0.0, od=0.1, mult=7))
+    g.add(Circle("liner", "HT9", 25.0, 450.0, id=0.86, od=0.9, mult=7))
+    block.add(g)
+    if block.spatialGrid is not None:
+        g.spatialLocator = grids.CoordinateLocation(0.0, 0.0, 0.0, block.spatialGrid)
+    return g
+
+
 def build_world(init, nocache=False):
     from mcverif import build
 
@@ -246,6 +263,8 @@ def build_world(init, nocache=False):
         random.seed(2000 + int(init.get("seed", 0)))
         a = bp.constructAssem(cs, name="igniter fuel")
         w.keep += [bp, cs]
+        if n != 5:
+            _add_group(a[0])
         w.label_tree(a)
         full = [w.lab[id(a[0])]]
         if n != 5:
@@ -260,6 +279,8 @@ def build_world(init, nocache=False):
         random.seed(2000 + int(init.get("seed", 0)))
         a = bp.constructAssem(cs, name="igniter fuel")
         w.keep += [bp, cs]
+        if n != 5:
+            _add_group(a[0])
         w.label_tree(a)
         bd = _free_block(bp, cs, "dummy" if n == 5 else "fuel", height=11.0 if n == 5 else 25.0)
         w.label_tree(bd)
@@ -274,6 +295,8 @@ def build_world(init, nocache=False):
             cells = [[0, 0], [1, 0], [0, 1], [2, 0], [1, 1]]
         r = build.reactor(spec, cs=cs, seed=1000 + int(init.get("seed", 0)))
         w.keep += [cs]
+        if n != 5:
+            _add_group(r.core[0][0])
         w.label_tree(r)
         x = r.core.createAssemblyOfType("igniter fuel", cs=cs)
         w.label_tree(x)
@@ -300,10 +323,15 @@ def _build_a(w, n):
 
     from mcverif.checks.c01_generic import Generic
 
-    def G(name, typ):
+    def G(name, typ, hexa=False):
+        # every container owns a lattice WITHOUT pre-built cells (len(grid) == 0, a falsy grid object):
+        # cells appear only when a child is given an index location on demand; children placed by a
+        # CoordinateLocation leave the lattice empty
         c = Generic(name)
         c.setType(typ)
-        c.spatialGrid = grids.CartesianGrid.fromRectangle(1.0, 1.0, numRings=1, armiObject=c)
+        c.spatialGrid = grids.HexGrid.fromPitch(1.0, numRings=0, armiObject=c) if hexa else grids.CartesianGrid.fromRectangle(1.0, 1.0, numRings=0, armiObject=c)
+        if len(c.spatialGrid) != 0:
+            raise RuntimeError("expected a lattice without pre-built cells")
         return c
 
     def K(name, mat, od):
@@ -311,8 +339,8 @@ def _build_a(w, n):
 
     root = G("root", "root")
     if n == 7:
-        c1, c2 = G("c1", "igniter fuel"), G("c2", "clad")
-        k3, g4 = K("fuel", "UZr", 0.8), G("g4", "duct")
+        c1, c2 = G("c1", "igniter fuel", hexa=True), G("c2", "clad")
+        k3, g4 = K("fuel", "UZr", 0.8), G("g4", "duct", hexa=True)
         d5, k6 = G("d5", "fuel"), K("clad", "HT9", 1.0)
         root.add(c1)
         root.add(c2)
@@ -321,19 +349,19 @@ def _build_a(w, n):
         # locators in the parent's grid, deliberately NOT in child order (so sort() has work to do)
         c1.spatialLocator = root.spatialGrid[2, 0, 0]
         c2.spatialLocator = root.spatialGrid[1, 0, 0]
-        k3.spatialLocator = c1.spatialGrid[1, 1, 0]
-        g4.spatialLocator = c2.spatialGrid[0, 1, 0]
+        k3.spatialLocator = grids.CoordinateLocation(1.0, 1.0, 0.0, c1.spatialGrid)  # c1's lattice stays empty
+        g4.spatialLocator = c2.spatialGrid[0, 1, 0]  # created on demand
         d5.spatialLocator = grids.IndexLocation(0, 2, 0, None)
         k6.spatialLocator = grids.IndexLocation(3, 0, 0, None)
         for o in (root, c1, k3, c2, g4, d5, k6):
             w.new(o)
     else:
-        c1, k2 = G("c1", "igniter fuel"), K("fuel", "UZr", 0.8)
+        c1, k2 = G("c1", "igniter fuel", hexa=True), K("fuel", "UZr", 0.8)
         g3, k4 = G("g3", "clad"), K("clad", "HT9", 1.0)
         root.add(c1)
         c1.add(k2)
         c1.spatialLocator = root.spatialGrid[2, 0, 0]
-        k2.spatialLocator = c1.spatialGrid[1, 1, 0]
+        k2.spatialLocator = grids.CoordinateLocation(1.0, 1.0, 0.0, c1.spatialGrid)  # c1's lattice stays empty
         g3.spatialLocator = grids.IndexLocation(1, 0, 0, None)
         k4.spatialLocator = grids.IndexLocation(0, 1, 0, None)
         for o in (root, c1, k2, g3, k4):
@@ -407,7 +435,7 @@ def full_digest(w, m):
 # ---------------------------------------------------------------------------------------------
 # alphabet
 
-ACCEPTS = {"G": "GK", "B": "K", "A": "B"}
+ACCEPTS = {"G": "GK", "B": "KG", "A": "B"}
 CONTRACT = {
     "addDup": ("RuntimeError",),
     "insertDup": ("RuntimeError",),
@@ -664,8 +692,10 @@ def apply(w, m, op, check):
                     viols.append(_v("replace-reuses-node/" + method, "after replaceBlockWithBlock the block lists the pre-existing object %s" % w.L(c), w, op))
                     new.append(w.lab[id(c)])
                 else:
-                    new.append(w.new(c))
-                    m.kids[new[-1]] = []
+                    l0 = len(w.objs)
+                    new.append(w.label_tree(c))  # a copied group brings its own (new) children
+                    for l in range(l0, len(w.objs)):
+                        m.kids[l] = [w.lab[id(x)] for x in w.objs[l]]
             m.kids[op[1]] = new
             w.flags[op[1]] = fnames(B.p.flags)  # the block takes over the replacement's parameters, flags included
             if len(new) != len(m.kids[op[2]]) or [type(c) for c in B] != [type(w.objs[k]) for k in m.kids[op[2]]]:
@@ -707,6 +737,8 @@ def apply(w, m, op, check):
             if check:
                 _cnt("refused:" + name)
                 now = snap(w)
+                if now == pre:
+                    w.unchanged = True  # the very state its parent history reached (and was checked in)
                 if now != pre:
                     viols.append(
                         _v(
@@ -880,7 +912,7 @@ def flag_match(names, spec, exact):
     return names == spec if exact else spec <= names
 
 
-SPECS = [None, ["FUEL"], ["CLAD"], ["FUEL", "CLAD"], [["FUEL"], ["DUCT"]], ["CONTROL"], ["FUEL", "IGNITER"], ["PLENUM"], ["COOLANT"]]
+SPECS = [None, ["FUEL"], ["CLAD"], ["FUEL", "CLAD"], [["FUEL"], ["DUCT"]], ["CONTROL"], ["FUEL", "IGNITER"], ["PLENUM"], ["WIRE"], [["WIRE"], ["FUEL"]]]
 
 
 def _spec_real(s):
@@ -985,87 +1017,107 @@ def check_queries(w, m):
     for l, o in enumerate(w.objs):
         if w.kind[l] == "K":
             continue
-        ks = [c for c in o]
-        deep = naive_deep(o)
-        for qn, got in (("getChildren", o.getChildren()), ("iterChildren", list(o.iterChildren())), ("getitem", [o[i] for i in range(len(ks))])):
-            nq += 1
-            if not same(got, ks):
-                bad(qn, "node %s: %s gives %s, child list is %s" % (l, qn, labs(got), labs(ks)))
-        nq += 2
-        got = o.getChildren(deep=True)
-        if not same(got, deep):
-            bad("getChildren-deep", "node %s: getChildren(deep=True) gives %s, naive walk %s" % (l, labs(got), labs(deep)))
-        got = list(o.iterChildren(deep=True))
-        if not same(got, deep):
-            bad("iterChildren-deep", "node %s: iterChildren(deep=True) gives %s, naive walk %s" % (l, labs(got), labs(deep)))
-        for g in (1, 2, 3, 4):
-            nq += 1
-            got = o.getChildren(generationNum=g)
-            exp = naive_gen(o, g)
-            if not same(got, exp):
-                bad("getChildren-generation", "node %s: getChildren(generationNum=%d) gives %s, naive walk %s" % (l, g, labs(got), labs(exp)))
-        nq += 1
         try:
-            got = o.getChildren(deep=True, generationNum=2)
-            bad("deep-and-generation-accepted", "node %s: getChildren(deep=True, generationNum=2) returned %s instead of raising" % (l, labs(got)))
-        except RuntimeError:
-            pass
-        for dp in (False, True):
-            nq += 1
-            got = o.getChildren(deep=dp, includeMaterials=True)
-            exp = []
-            for c in deep if dp else ks:
-                exp.append(c)
-                if getattr(c, "material", None) is not None:
-                    exp.append(c.material)
-            if not same(got, exp):
-                bad("getChildren-includeMaterials", "node %s: getChildren(deep=%s, includeMaterials=True) gives %d items %s, expected %d %s" % (l, dp, len(got), labs(got), len(exp), labs(exp)))
-        comps = naive_components(o)
-        for s, sr, sf in specs:
-            for ex in (False, True):
-                nq += 3
-                exp = [c for c in comps if flag_match(w.flags[w.lab[id(c)]], sf, ex)] if all(id(c) in w.lab for c in comps) else None
-                if exp is not None:
-                    got = o.getComponents(sr, ex)
-                    if not same(got, exp):
-                        bad("getComponents", "node %s: getComponents(%s, exact=%s) gives %s, naive walk %s" % (l, s, ex, labs(got), labs(exp)))
-                    got = list(o.iterComponents(sr, ex))
-                    if not same(got, exp):
-                        bad("iterComponents", "node %s: iterComponents(%s, exact=%s) gives %s, naive walk %s" % (l, s, ex, labs(got), labs(exp)))
-                if all(id(c) in w.lab for c in ks):
-                    exp = [c for c in ks if flag_match(w.flags[w.lab[id(c)]], sf, ex)]
-                    got = o.getChildrenWithFlags(sr, ex)
-                    if not same(got, exp):
-                        bad("getChildrenWithFlags", "node %s: getChildrenWithFlags(%s, exactMatch=%s) gives %s, naive walk %s" % (l, s, ex, labs(got), labs(exp)))
-        for t in types if all(_gettype(c) is not None for c in ks) else []:  # Core/ExcoreStructure define no type parameter
-            nq += 1
-            exp = [c for c in ks if _gettype(c) == t]
-            got = o.getChildrenOfType(t)
-            if not same(got, exp):
-                bad("getChildrenOfType", "node %s: getChildrenOfType(%r) gives %s, naive walk %s" % (l, t, labs(got), labs(exp)))
-        for pn, pf in preds:
-            nq += 3
-            for qn, got, exp in (
-                ("predicate", o.getChildren(predicate=pf), [c for c in ks if pf(c)]),
-                ("predicate-deep", o.getChildren(deep=True, predicate=pf), [c for c in deep if pf(c)]),
-                ("predicate-generation", o.getChildren(generationNum=2, predicate=pf), [c for c in naive_gen(o, 2) if pf(c)]),
-            ):
+            ks = [c for c in o]
+            deep = naive_deep(o)
+            for qn, got in (("getChildren", o.getChildren()), ("iterChildren", list(o.iterChildren())), ("getitem", [o[i] for i in range(len(ks))])):
+                nq += 1
+                if not same(got, ks):
+                    bad(qn, "node %s: %s gives %s, child list is %s" % (l, qn, labs(got), labs(ks)))
+            nq += 2
+            got = o.getChildren(deep=True)
+            if not same(got, deep):
+                bad("getChildren-deep", "node %s: getChildren(deep=True) gives %s, naive walk %s" % (l, labs(got), labs(deep)))
+            got = list(o.iterChildren(deep=True))
+            if not same(got, deep):
+                bad("iterChildren-deep", "node %s: iterChildren(deep=True) gives %s, naive walk %s" % (l, labs(got), labs(deep)))
+            for g in (1, 2, 3, 4):
+                nq += 1
+                got = o.getChildren(generationNum=g)
+                exp = naive_gen(o, g)
                 if not same(got, exp):
-                    bad("getChildren-" + qn, "node %s: getChildren(%s %s) gives %s, naive walk %s" % (l, qn, pn, labs(got), labs(exp)))
-        # membership, index
-        kidset = set(id(c) for c in ks)
-        for x in w.objs:
-            nq += 1
-            if (x in o) != (id(x) in kidset):
-                bad("contains", "node %s: (%s in node) is %s, child list says %s" % (l, w.L(x), x in o, id(x) in kidset))
-        for i, c in enumerate(ks):
+                    bad("getChildren-generation", "node %s: getChildren(generationNum=%d) gives %s, naive walk %s" % (l, g, labs(got), labs(exp)))
             nq += 1
             try:
-                got = o.index(c)
-            except ValueError:
-                got = None
-            if got != i:
-                bad("index", "node %s: index(child #%d) gives %s" % (l, i, got))
+                got = o.getChildren(deep=True, generationNum=2)
+                bad("deep-and-generation-accepted", "node %s: getChildren(deep=True, generationNum=2) returned %s instead of raising" % (l, labs(got)))
+            except RuntimeError:
+                pass
+            for dp in (False, True):
+                nq += 1
+                got = o.getChildren(deep=dp, includeMaterials=True)
+                exp = []
+                for c in deep if dp else ks:
+                    exp.append(c)
+                    if getattr(c, "material", None) is not None:
+                        exp.append(c.material)
+                if not same(got, exp):
+                    bad("getChildren-includeMaterials", "node %s: getChildren(deep=%s, includeMaterials=True) gives %d items %s, expected %d %s" % (l, dp, len(got), labs(got), len(exp), labs(exp)))
+            comps = naive_components(o)
+            for s, sr, sf in specs:
+                for ex in (False, True):
+                    nq += 3
+                    exp = [c for c in comps if flag_match(w.flags[w.lab[id(c)]], sf, ex)] if all(id(c) in w.lab for c in comps) else None
+                    if exp is not None:
+                        got = o.getComponents(sr, ex)
+                        if not same(got, exp):
+                            bad("getComponents", "node %s: getComponents(%s, exact=%s) gives %s, naive walk %s" % (l, s, ex, labs(got), labs(exp)))
+                        got = list(o.iterComponents(sr, ex))
+                        if not same(got, exp):
+                            bad("iterComponents", "node %s: iterComponents(%s, exact=%s) gives %s, naive walk %s" % (l, s, ex, labs(got), labs(exp)))
+                        nq += 1
+                        got = o.getNumComponents(sr, ex)
+                        want = sum(int(c.getDimension("mult")) for c in exp)
+                        if got != want:
+                            bad("getNumComponents", "node %s: getNumComponents(%s, exact=%s) gives %s, naive leaf walk (sum of mult over %s) %s" % (l, s, ex, got, labs(exp), want))
+                        if s is None or isinstance(s[0], list) or len(s) == 1:
+                            # a list asks for ALL of its elements to be present (a multi-bit scalar is left out:
+                            # Flags values are themselves iterable)
+                            nq += 1
+                            elems = sf if isinstance(sf, list) else [sf]
+                            want = all(any(flag_match(w.flags[w.lab[id(c)]], e, ex) for c in comps) for e in elems)
+                            got = bool(o.hasComponents(sr, ex))
+                            if got != want:
+                                bad("hasComponents", "node %s: hasComponents(%s, exact=%s) gives %s, naive leaf walk says %s" % (l, s, ex, got, want))
+                    if all(id(c) in w.lab for c in ks):
+                        exp = [c for c in ks if flag_match(w.flags[w.lab[id(c)]], sf, ex)]
+                        got = o.getChildrenWithFlags(sr, ex)
+                        if not same(got, exp):
+                            bad("getChildrenWithFlags", "node %s: getChildrenWithFlags(%s, exactMatch=%s) gives %s, naive walk %s" % (l, s, ex, labs(got), labs(exp)))
+            for t in types if all(_gettype(c) is not None for c in ks) else []:  # Core/ExcoreStructure define no type parameter
+                nq += 1
+                exp = [c for c in ks if _gettype(c) == t]
+                got = o.getChildrenOfType(t)
+                if not same(got, exp):
+                    bad("getChildrenOfType", "node %s: getChildrenOfType(%r) gives %s, naive walk %s" % (l, t, labs(got), labs(exp)))
+            for pn, pf in preds:
+                nq += 3
+                for qn, got, exp in (
+                    ("predicate", o.getChildren(predicate=pf), [c for c in ks if pf(c)]),
+                    ("predicate-deep", o.getChildren(deep=True, predicate=pf), [c for c in deep if pf(c)]),
+                    ("predicate-generation", o.getChildren(generationNum=2, predicate=pf), [c for c in naive_gen(o, 2) if pf(c)]),
+                ):
+                    if not same(got, exp):
+                        bad("getChildren-" + qn, "node %s: getChildren(%s %s) gives %s, naive walk %s" % (l, qn, pn, labs(got), labs(exp)))
+            # membership, index
+            kidset = set(id(c) for c in ks)
+            for x in w.objs:
+                nq += 1
+                if (x in o) != (id(x) in kidset):
+                    bad("contains", "node %s: (%s in node) is %s, child list says %s" % (l, w.L(x), x in o, id(x) in kidset))
+            for i, c in enumerate(ks):
+                nq += 1
+                try:
+                    got = o.index(c)
+                except ValueError:
+                    got = None
+                if got != i:
+                    bad("index", "node %s: index(child #%d) gives %s" % (l, i, got))
+        except Exception as e:  # a query that raises is a wrong answer, not a harness problem
+            import traceback
+
+            fr = traceback.extract_tb(e.__traceback__)[-1]
+            bad("raises-%s/%s" % (type(e).__name__, fr.name), "node %s: a traversal query raised %s (%s) in %s" % (l, type(e).__name__, str(e)[:120], fr.name))
     # ancestors (reference: parent chain of the MODEL)
     for l, o in enumerate(w.objs):
         chain = [l]
@@ -1313,7 +1365,9 @@ def expand(item):
 
     if not viols:
         viols += drop(check_structure(w, m, tag))
-    if not viols:
+    if not viols and not getattr(w, "unchanged", False):
+        # (after a clean refusal the snapshot - which is the canonical form - equals that of the parent
+        # history's state, where queries and copies have been checked)
         viols += drop(check_queries(w, m))
         viols += drop(check_copies(w, m))
     if out != "ok" and not viols and hist:
